@@ -600,7 +600,11 @@ func (env *SpecEnv) call(x *CallE) *Val {
 		l := env.lenOf(env.eval(x.Args[0]))
 		return &Val{T: fmt.Sprintf("(str-of-bytes %s %s %s)", arr, off, l), Typ: types.Typ[types.String]}
 	}
-	if g, ok := vc.P.CS.Ghosts[fname]; ok {
+	gname := fname
+	if i := strings.LastIndex(gname, "."); i >= 0 {
+		gname = gname[i+1:] // package-qualified ghost function
+	}
+	if g, ok := vc.P.CS.Ghosts[gname]; ok {
 		var args []*Val
 		for _, a := range x.Args {
 			args = append(args, env.eval(a))
